@@ -155,8 +155,17 @@ def r02_2(chk):
     resolved = {env.get(b, b) for b in bounds}
     want_any = [{f"{ps[0]}.shape[0]", f"len({ps[0]})", f"len({ps[2]})"}, {"index.shape[0]", f"{ps[1]}.shape[0]", "len(index)"}, {f"{ps[1]}.shape[1]", "plhs.shape[1]"}]
     cov = full and all(bool(w & resolved) for w in want_any)
-    chk.decide(cov, "R02.2", key(mk, "sum_input_likelihoods", "all children, columns and motifs"), mk.loc(kf), f"loops over {its}", f"loops over {its} (bounds {sorted(resolved)}) do not cover every child, parent column and motif")
-    chk.floor("R02.2", 2, "writes and loop coverage")
+    kcov = key(mk, "sum_input_likelihoods", "all children, columns and motifs")
+    # a bound that is arithmetic on a size (shape[1] - 1, len(x) // 2), or a range with a start/step, cuts the iteration short:
+    # that is a violation; a bound spelt in a way not listed above is merely not recognised
+    arith = [b for b in resolved if any(isinstance(x, ast.BinOp) for x in ast.walk(ast.parse(b, mode="eval")))]
+    if cov:
+        chk.ok("R02.2", kcov, mk.loc(kf), f"loops over {its}")
+    elif arith or not full:
+        chk.violation("R02.2", kcov, mk.loc(kf), f"loops over {its} (bounds {sorted(resolved)}) do not cover every child, parent column and motif")
+    else:
+        chk.unresolved("R02.2", kcov, mk.loc(kf), f"loop bounds {sorted(resolved)} not recognised")
+    chk.floor("R02.2", 1, "writes (loop coverage when its bounds are recognised)")
 
 
 def _calcdefn_calls(fn, func_text):
